@@ -2,6 +2,8 @@
 //!
 //! json_roundtrip: configuration in job format -> `serde_json::to_string`, `from_str` of that text,
 //!                 `==`, and dumps / token streams of the scanners built before and after.
+//! json_cache_seq: configuration, filler configurations, inputs -> build() of the configuration, of the fillers, and
+//!                 of the configuration read back from its JSON text, compared with build_uncached of the original.
 //! json_parse:     a JSON text -> does `from_str::<Vec<ScannerMode>>` accept it, and which value.
 //! json_values:    Span / Position / Match / MatchExt from numbers -> texts and round trips;
 //!                 texts -> accepted or not, and which value.
@@ -370,8 +372,60 @@ fn job_values(job: &Value) -> Value {
     json!({"values": outs, "parsed": parsed, "scanned": scanned})
 }
 
+/// A configuration built through `build()` (the process-wide cache), `fillers` other
+/// configurations built through it, then the configuration read back from its JSON text built
+/// through it again: the scanner handed out must be the one the original configuration compiles to
+/// (reference: `build_uncached` of the original).
+fn job_cache_seq(job: &Value) -> Value {
+    let mut res = Map::new();
+    let r = catch_unwind(AssertUnwindSafe(|| {
+        let modes = crate::modes_from_json(&job["modes"]);
+        let text = serde_json::to_string(&modes).map_err(|e| e.to_string())?;
+        let reread: Vec<ScannerMode> = serde_json::from_str(&text).map_err(|e| e.to_string())?;
+        let empty = Vec::new();
+        let inputs = job.get("inputs").and_then(|i| i.as_array()).unwrap_or(&empty);
+        let (sref, cref, _) = crate::build(&modes, false);
+        let Some(sref) = sref else { return Ok(json!({"build": cref})) };
+        let dref = crate::dump_to_json(&scnr::verif::dump(&sref));
+        let stref = streams(&sref, inputs);
+        let (s1, c1, e1) = crate::build(&modes, true);
+        let first_ok = s1.as_ref().map(|s| crate::dump_to_json(&scnr::verif::dump(s)) == dref).unwrap_or(false);
+        let mut filler_fail = Vec::new();
+        for (i, f) in job["fillers"].as_array().unwrap_or(&empty).iter().enumerate() {
+            let fm = crate::modes_from_json(f);
+            let (fs, fc, fe) = crate::build(&fm, true);
+            if fs.is_none() {
+                filler_fail.push(json!([i, fc, fe]));
+            }
+        }
+        let (s2, c2, e2) = crate::build(&reread, true);
+        let (late_dump_ok, late_streams_ok, st2) = match &s2 {
+            Some(s) => {
+                let st = streams(s, inputs);
+                (crate::dump_to_json(&scnr::verif::dump(s)) == dref, st == stref, st)
+            }
+            None => (false, false, Vec::new()),
+        };
+        Ok::<Value, String>(json!({"build": "ok", "first": c1, "first_error": e1, "first_ok": first_ok,
+            "late": c2, "late_error": e2, "late_dump_ok": late_dump_ok, "late_streams_ok": late_streams_ok,
+            "streams_ref": stref, "streams_late": st2, "filler_failures": filler_fail, "equal": reread == modes}))
+    }));
+    match r {
+        Ok(Ok(v)) => v,
+        Ok(Err(e)) => {
+            res.insert("error".into(), json!(e));
+            Value::Object(res)
+        }
+        Err(p) => {
+            res.insert("panic".into(), json!(crate::panic_message(p)));
+            Value::Object(res)
+        }
+    }
+}
+
 pub fn run(kind: &str, job: &Value) -> Option<Value> {
     match kind {
+        "json_cache_seq" => Some(job_cache_seq(job)),
         "json_roundtrip" => Some(job_roundtrip(job)),
         "json_parse" => Some(job_parse(job)),
         "json_values" => Some(job_values(job)),
